@@ -97,190 +97,352 @@ func init() {
 }
 
 // refProjection: v is sortedRefs[arg][k] → (which parameter, k)
-func refProjection(fn *ssa.Function, v ssa.Value) (int, int64, bool) {
+// refProjection: v is component [k] of the entry at position p of the entry list, p a parameter of the enclosing function
+// – written i.sortedRefs[p][k], r[p][k] (r the receiver of a sort.Interface over the list) or through a local copy of the
+// entry. onField reports whether the list is named as the sortedRefs field (otherwise: a slice parameter).
+func refProjection(v ssa.Value) (p *ssa.Parameter, k int64, onField, ok bool) {
 	v = strip(v)
 	var idxConst int64 = -1
 	var base ssa.Value
 	switch x := v.(type) {
 	case *ssa.UnOp:
-		ia, ok := x.X.(*ssa.IndexAddr)
-		if !ok {
-			return 0, 0, false
+		ia, isIA := x.X.(*ssa.IndexAddr)
+		if !isIA {
+			return nil, 0, false, false
 		}
 		n, isK := constInt(ia.Index)
 		if !isK {
-			return 0, 0, false
+			return nil, 0, false, false
 		}
 		idxConst, base = n, ia.X
 	case *ssa.Index:
 		n, isK := constInt(x.Index)
 		if !isK {
-			return 0, 0, false
+			return nil, 0, false, false
 		}
 		idxConst, base = n, x.X
 	default:
-		return 0, 0, false
+		return nil, 0, false, false
 	}
-	// base: &sortedRefs[param] or load of it
+	// base: &list[param] or load of it
 	for i := 0; i < 6; i++ {
 		switch y := base.(type) {
 		case *ssa.UnOp:
 			base = y.X
 			continue
 		case *ssa.Alloc:
-			// a := sortedRefs[x] – a local copy of the entry
+			// a := list[x] – a local copy of the entry
 			sts := storesTo(y)
 			if len(sts) != 1 {
-				return 0, 0, false
+				return nil, 0, false, false
 			}
 			base = sts[0].Val
 			continue
 		case *ssa.IndexAddr:
-			f, _ := loadedField(y.X)
-			if f == nil || f.Name() != "sortedRefs" {
-				return 0, 0, false
+			q, isP := y.Index.(*ssa.Parameter)
+			if !isP {
+				return nil, 0, false, false
 			}
-			p, ok := y.Index.(*ssa.Parameter)
-			if !ok {
-				return 0, 0, false
+			if f, _ := loadedField(y.X); f != nil && f.Name() == "sortedRefs" {
+				return q, idxConst, true, true
 			}
-			for pi, q := range fn.Params {
-				if q == p {
-					return pi, idxConst, true
-				}
+			if lp, isLP := strip(y.X).(*ssa.Parameter); isLP && isEntryList(lp.Type()) {
+				return q, idxConst, false, true
 			}
-			return 0, 0, false
+			return nil, 0, false, false
 		}
 		break
 	}
-	return 0, 0, false
+	return nil, 0, false, false
+}
+
+// isEntryList: [][2]string (possibly named).
+func isEntryList(t types.Type) bool {
+	sl, ok := t.Underlying().(*types.Slice)
+	if !ok {
+		return false
+	}
+	arr, ok := sl.Elem().Underlying().(*types.Array)
+	return ok && arr.Len() == 2 && isStringType(arr.Elem())
+}
+
+// entryLess evaluates a "does entry x go before entry y" function abstractly for ONE ordering of the two entries:
+// o1 / o0 are the orderings (-1, 0, 1) of their index keys [1] and primary keys [0], fwd the direction flag. em says
+// which parameter of fn stands for which entry (0 = the first, 1 = the second). Helpers that take the two positions are
+// evaluated the same way (with the entries in the order they are handed over).
+type lessEval struct {
+	e        *Engine
+	ncmp     int
+	usesFlag bool
+	offField bool // a projection of a slice parameter (sort.Interface receiver) was used
+	problem  string
+}
+
+func (le *lessEval) run(fn *ssa.Function, em map[*ssa.Parameter]int, o1, o0 int, fwd bool, depth int) (bool, bool) {
+	if depth > 4 || fn == nil || fn.Blocks == nil {
+		return false, false
+	}
+	ret, evalAt, ok := interpBool(fn, func(v ssa.Value) (bool, bool) {
+		switch x := v.(type) {
+		case *ssa.BinOp:
+			if !isStringType(x.X.Type()) {
+				return false, false
+			}
+			pa, ka, fa, ok1 := refProjection(x.X)
+			pb, kb, fb, ok2 := refProjection(x.Y)
+			if !ok1 || !ok2 {
+				le.problem = "a comparison whose operands are not projections of the two entries"
+				return false, false
+			}
+			ia, okA := em[pa]
+			ib, okB := em[pb]
+			if !okA || !okB {
+				le.problem = "a comparison of entries at positions other than the two handed to the comparator"
+				return false, false
+			}
+			if ka != kb {
+				le.problem = fmt.Sprintf("a comparison mixes projection [%d] of one entry with [%d] of the other", ka, kb)
+				return false, false
+			}
+			if !fa || !fb {
+				le.offField = true
+			}
+			le.ncmp++
+			ord := o0
+			if ka == 1 {
+				ord = o1
+			}
+			switch {
+			case ia == ib:
+				ord = 0
+			case ia > ib:
+				ord = -ord
+			}
+			return cmpHolds(x.Op, ord)
+		case *ssa.Call:
+			g := x.Call.StaticCallee()
+			if g == nil || le.e.fnRole(g) != "core" || !isBoolType(x.Type()) {
+				return false, false
+			}
+			em2 := map[*ssa.Parameter]int{}
+			for ai, a := range x.Call.Args {
+				if q, isP := strip(a).(*ssa.Parameter); isP && ai < len(g.Params) {
+					if id, has := em[q]; has {
+						em2[g.Params[ai]] = id
+					}
+				}
+			}
+			if len(em2) != 2 {
+				return false, false
+			}
+			return le.run(g, em2, o1, o0, fwd, depth+1)
+		case *ssa.UnOp:
+			if _, isFV := x.X.(*ssa.FreeVar); isFV && x.Op == token.MUL && isBoolType(x.Type()) {
+				le.usesFlag = true
+				return fwd, true
+			}
+		case *ssa.FreeVar:
+			if isBoolType(x.Type()) {
+				le.usesFlag = true
+				return fwd, true
+			}
+		case *ssa.Parameter:
+			if isBoolType(x.Type()) {
+				le.usesFlag = true
+				return fwd, true
+			}
+		}
+		return false, false
+	})
+	if !ok {
+		return false, false
+	}
+	return evalAt(retVals(ret)[0])
+}
+
+// sortAlternative: one way the entry list gets sorted – by a comparator over positions, possibly reversed
+// (sort.Reverse), possibly only under one value of the direction flag.
+type sortAlternative struct {
+	less     *ssa.Function
+	em       func(reversed bool) map[*ssa.Parameter]int
+	reversed bool
+	fwd      *bool // nil: both directions (the comparator itself consults the flag)
+	onList   bool  // the sorted operand is the sortedRefs field
+	at       ssa.Instruction
+}
+
+// sortSites: the sort calls of fn over the entry list and the comparators they use.
+func (e *Engine) sortSites(fn *ssa.Function) []sortAlternative {
+	var out []sortAlternative
+	isList := func(v ssa.Value) bool {
+		v = strip(v)
+		f, _ := loadedField(v)
+		return f != nil && f.Name() == "sortedRefs"
+	}
+	flagOf := func(facts []Cond) *bool {
+		for _, cd := range facts {
+			cd = normCond(cd)
+			v := strip(cd.V)
+			if u, ok := v.(*ssa.UnOp); ok && u.Op == token.MUL {
+				if al, isAl := u.X.(*ssa.Alloc); isAl {
+					if sts := storesTo(al); len(sts) == 1 {
+						v = strip(sts[0].Val)
+					}
+				}
+			}
+			if q, ok := v.(*ssa.Parameter); ok && isBoolType(q.Type()) {
+				val := cd.Val
+				return &val
+			}
+		}
+		return nil
+	}
+	var resolve func(v ssa.Value, reversed bool, facts []Cond, at ssa.Instruction, depth int)
+	resolve = func(v ssa.Value, reversed bool, facts []Cond, at ssa.Instruction, depth int) {
+		if depth > 6 {
+			return
+		}
+		switch x := v.(type) {
+		case *ssa.Phi:
+			for i, ed := range x.Edges {
+				resolve(ed, reversed, append(append([]Cond{}, facts...), edgeFacts(x.Block().Preds[i], x.Block())...), at, depth+1)
+			}
+		case *ssa.ChangeInterface:
+			resolve(x.X, reversed, facts, at, depth+1)
+		case *ssa.MakeInterface:
+			less := e.Prog.LookupMethod(x.X.Type(), nil, "Less")
+			if less == nil {
+				if nt := namedOf(x.X.Type()); nt != nil {
+					less = e.Prog.LookupMethod(x.X.Type(), nt.Obj().Pkg(), "Less")
+				}
+			}
+			if less == nil || len(less.Params) != 3 {
+				return
+			}
+			l := less
+			out = append(out, sortAlternative{less: l, reversed: reversed, fwd: flagOf(facts), onList: isList(x.X), at: at,
+				em: func(rev bool) map[*ssa.Parameter]int {
+					if rev {
+						return map[*ssa.Parameter]int{l.Params[1]: 1, l.Params[2]: 0}
+					}
+					return map[*ssa.Parameter]int{l.Params[1]: 0, l.Params[2]: 1}
+				}})
+		case *ssa.Call:
+			if staticCalleeName(x) == "sort.Reverse" {
+				resolve(x.Call.Args[0], !reversed, facts, at, depth+1)
+			}
+		}
+	}
+	instrs(fn, func(in ssa.Instruction) {
+		c, ok := in.(*ssa.Call)
+		if !ok {
+			return
+		}
+		switch staticCalleeName(c) {
+		case "sort.Slice", "sort.SliceStable":
+			for _, clo := range e.closuresOf(c.Call.Args[1], nil, 0) {
+				if len(clo.Params) != 2 {
+					continue
+				}
+				cl := clo
+				out = append(out, sortAlternative{less: cl, onList: isList(c.Call.Args[0]), at: in,
+					em: func(bool) map[*ssa.Parameter]int { return map[*ssa.Parameter]int{cl.Params[0]: 0, cl.Params[1]: 1} }})
+			}
+		case "sort.Sort", "sort.Stable":
+			resolve(c.Call.Args[0], false, condsAt(c.Block()), in, 0)
+		}
+	})
+	return out
 }
 
 func c02R1(e *Engine) {
-	lk := e.fn("core", "index.lessKey")
-	ss := e.fn("core", "index.startSearch")
-	if !e.anchor("R1", "core.index.lessKey/startSearch", lk == nil || ss == nil) {
-		return
-	}
-	// decision table: for the 3×3 orderings of (index key, primary key) of the two entries the comparator must answer
-	// "x before y" exactly when the index key is smaller, or equal with a smaller primary key
-	construct := "core.index.lessKey:lexicographic"
-	var probs []string
-	ncmp := 0
-	for _, o1 := range []int{-1, 0, 1} { // ordering of the index keys [1]
-		for _, o0 := range []int{-1, 0, 1} { // ordering of the primary keys [0]
-			unknown := ""
-			ret, evalAt, ok := interpBool(lk, func(v ssa.Value) (bool, bool) {
-				b, isB := v.(*ssa.BinOp)
-				if !isB || !isStringType(b.X.Type()) {
-					return false, false
+	// the function that (re)builds and sorts the entry list of an index: found by what it does
+	var ss *ssa.Function
+	var alts []sortAlternative
+	for _, fn := range e.funcs("core") {
+		if fn.Parent() != nil {
+			continue
+		}
+		if a := e.sortSites(fn); len(a) > 0 {
+			for _, x := range a {
+				if x.onList {
+					ss, alts = fn, a
 				}
-				px, kx, ok1 := refProjection(lk, b.X)
-				py, ky, ok2 := refProjection(lk, b.Y)
-				if !ok1 || !ok2 {
-					unknown = "a comparison whose operands are not projections of the two entries"
-					return false, false
-				}
-				if kx != ky {
-					unknown = fmt.Sprintf("a comparison mixes projection [%d] of one entry with [%d] of the other", kx, ky)
-					return false, false
-				}
-				ncmp++
-				ord := o0
-				if kx == 1 {
-					ord = o1
-				}
-				switch {
-				case px == py:
-					ord = 0
-				case px > py:
-					ord = -ord
-				}
-				return cmpHolds(b.Op, ord)
-			})
-			want := o1 < 0 || (o1 == 0 && o0 < 0)
-			got, decided := false, false
-			if ok {
-				got, decided = evalAt(retVals(ret)[0])
-			}
-			switch {
-			case unknown != "":
-				probs = append(probs, unknown)
-			case !decided:
-				probs = append(probs, "the comparator could not be evaluated for one of the nine orderings")
-			case got != want:
-				probs = append(probs, fmt.Sprintf("for index keys %s and primary keys %s the comparator answers %v (entries must be ordered by index key, ties broken by primary key, or lock-step consumption with sortedKeys and pagination inside a run of equal keys break)", ordStr(o1), ordStr(o0), got))
 			}
 		}
 	}
-	if len(probs) > 0 {
-		sort.Strings(probs)
-		e.fail("R1", construct, e.pos(lk.Pos()), "%s", probs[0])
-	} else {
-		e.pass("R1", construct, e.pos(lk.Pos()), "decision table over the 9 orderings of (index key, primary key): lexicographic in every case (%d comparisons evaluated)", ncmp)
-	}
-	// the closure handed to sort.Slice: lessKey(x,y) under the direction flag, its negation otherwise
-	var clo *ssa.Function
-	for _, a := range ss.AnonFuncs {
-		clo = a
-	}
-	construct = "core.index.startSearch:direction"
-	if clo == nil {
-		e.undecided("R1", construct, e.pos(ss.Pos()), "no comparator closure found in startSearch")
+	if !e.anchor("R1", "core: the function that sorts index.sortedRefs", ss == nil) {
 		return
 	}
-	usesLess := false
-	okDir, why := true, ""
+	// decision table: for both directions and the 3×3 orderings of (index key, primary key) of two entries the effective
+	// comparator must answer "x before y" exactly when – scanning forward – the index key is smaller, or equal with a
+	// smaller primary key; scanning backward the mirror image (two entries are never equal: primary keys are distinct)
 	for _, fwd := range []bool{true, false} {
-		for _, less := range []bool{true, false} {
-			ret, evalAt, ok := interpBool(clo, func(v ssa.Value) (bool, bool) {
-				switch x := v.(type) {
-				case *ssa.Call:
-					if x.Call.StaticCallee() == lk && len(x.Call.Args) == 3 && x.Call.Args[1] == ssa.Value(clo.Params[0]) && x.Call.Args[2] == ssa.Value(clo.Params[1]) {
-						usesLess = true
-						return less, true
+		dir := map[bool]string{true: "forward", false: "backward"}[fwd]
+		construct := e.fname(ss) + ":entry-order[" + dir + "]"
+		var use []sortAlternative
+		for _, a := range alts {
+			if a.fwd == nil || *a.fwd == fwd {
+				use = append(use, a)
+			}
+		}
+		if len(use) == 0 {
+			e.fail("R1", construct, e.pos(ss.Pos()), "no comparator sorts the entry list when scanning %s", dir)
+			continue
+		}
+		var probs []string
+		ncmp := 0
+		var names []string
+		for _, a := range use {
+			le := &lessEval{e: e}
+			for _, o1 := range []int{-1, 0, 1} {
+				for _, o0 := range []int{-1, 0, 1} {
+					if o1 == 0 && o0 == 0 && !fwd {
+						continue
 					}
-				case *ssa.UnOp:
-					if _, isFV := x.X.(*ssa.FreeVar); isFV && x.Op == token.MUL && isBoolType(x.Type()) {
-						return fwd, true
+					want := o1 < 0 || (o1 == 0 && o0 < 0)
+					if !fwd {
+						want = o1 > 0 || (o1 == 0 && o0 > 0)
 					}
-				case *ssa.FreeVar:
-					if isBoolType(x.Type()) {
-						return fwd, true
+					le.problem = ""
+					got, decided := le.run(a.less, a.em(a.reversed), o1, o0, fwd, 0)
+					switch {
+					case le.problem != "":
+						probs = append(probs, le.problem)
+					case !decided:
+						probs = append(probs, "the comparator could not be evaluated for one of the orderings")
+					case got != want:
+						probs = append(probs, fmt.Sprintf("scanning %s, for index keys %s and primary keys %s the comparator answers %v (entries must be ordered by index key, ties broken by primary key, reversed as a whole when scanning backward – or lock-step consumption with sortedKeys and pagination inside a run of equal keys break)", dir, ordStr(o1), ordStr(o0), got))
 					}
 				}
-				return false, false
-			})
-			got, decided := false, false
-			if ok {
-				got, decided = evalAt(retVals(ret)[0])
 			}
-			if !decided {
-				okDir, why = false, "(the comparator could not be evaluated from the direction flag and lessKey(x,y))"
-			} else if got != (less == fwd) {
-				okDir, why = false, fmt.Sprintf("(forward=%v, lessKey=%v gives %v)", fwd, less, got)
+			ncmp += le.ncmp
+			if le.offField && !a.onList {
+				probs = append(probs, "the comparator orders a list that is not the index's sortedRefs")
 			}
+			if a.fwd == nil && !le.usesFlag {
+				probs = append(probs, "one comparator serves both directions and does not consult the direction flag")
+			}
+			nm := e.fname(a.less)
+			if a.reversed {
+				nm = "reverse(" + nm + ")"
+			}
+			names = append(names, nm)
+		}
+		if len(probs) > 0 {
+			sort.Strings(probs)
+			e.fail("R1", construct, e.ipos(use[0].at), "%s", probs[0])
+		} else {
+			e.pass("R1", construct, e.ipos(use[0].at), "decision table over the orderings of (index key, primary key): %s is the lexicographic order of the scan direction in every case (%d comparisons evaluated)", strings.Join(names, ", "), ncmp)
 		}
 	}
-	if !usesLess {
-		e.fail("R1", construct, e.pos(clo.Pos()), "the sort comparator does not use lessKey(x, y)")
-		return
-	}
-	e.check(okDir, "R1", construct, e.pos(clo.Pos()), "sort comparator = lessKey(x,y) when scanning forward, its negation when scanning backward %s", why)
-	// sort.Slice is applied to sortedRefs
-	sorted := false
-	instrs(ss, func(in ssa.Instruction) {
-		if c, ok := in.(*ssa.Call); ok && strings.HasPrefix(staticCalleeName(c), "sort.Slice") {
-			a := c.Call.Args[0]
-			if mi, ok := a.(*ssa.MakeInterface); ok {
-				a = mi.X
-			}
-			if f, _ := loadedField(a); f != nil && f.Name() == "sortedRefs" {
-				sorted = true
-			}
+	sorted := true
+	for _, a := range alts {
+		if !a.onList {
+			sorted = false
 		}
-	})
-	e.check(sorted, "R1", "core.index.startSearch:sorts-sortedRefs", e.pos(ss.Pos()), "the rebuilt entry list is sorted with that comparator")
+	}
+	e.check(sorted, "R1", e.fname(ss)+":sorts-sortedRefs", e.pos(ss.Pos()), "the rebuilt entry list is what gets sorted with that comparator")
 }
 
 func c02R2(e *Engine) {
@@ -288,16 +450,21 @@ func c02R2(e *Engine) {
 	if !e.anchor("R2", "core.Table.SearchData", sd == nil) {
 		return
 	}
-	// the result slice: first return value's origin phi of appends
-	var appends []*ssa.Call
-	instrs(sd, func(in ssa.Instruction) {
+	// the append to the result list: in the search loop itself or in a step/emit helper it calls (found with the chain of
+	// call sites that leads there)
+	type apSite struct {
+		c   *ssa.Call
+		ctx []callCtx
+	}
+	var appends []apSite
+	e.walkLocal("core", sd, 3, func(in ssa.Instruction, ctx []callCtx) {
 		c, ok := in.(*ssa.Call)
 		if !ok || staticCalleeName(c) != "builtin.append" {
 			return
 		}
 		if sl, ok := c.Type().Underlying().(*types.Slice); ok {
 			if _, isMap := sl.Elem().Underlying().(*types.Map); isMap {
-				appends = append(appends, c)
+				appends = append(appends, apSite{c, ctx})
 			}
 		}
 	})
@@ -306,31 +473,62 @@ func c02R2(e *Engine) {
 		e.fail("R2", construct, e.pos(sd.Pos()), "expected exactly one append to the result list, found %d", len(appends))
 		return
 	}
-	ap := appends[0]
-	// governing conditions beyond loop progress and the ok of the position step
+	ap, apCtx := appends[0].c, appends[0].ctx
+	// governing conditions beyond loop progress and the ok of the position step – at the append and at every call site
+	// of the chain, each condition resolved to the caller's value when it is a parameter of the helper
 	var verdict ssa.Value
 	extra := ""
-	for _, cd := range condsAt(ap.Block()) {
-		cd = normCond(cd)
-		if isIndexLoopCond(cd.V) {
-			continue
-		}
-		if ex, ok := cd.V.(*ssa.Extract); ok {
-			if _, isNext := ex.Tuple.(*ssa.Next); isNext {
+	type level struct {
+		blk *ssa.BasicBlock
+		ctx []callCtx
+	}
+	levels := []level{{ap.Block(), apCtx}}
+	for i := len(apCtx) - 1; i >= 0; i-- {
+		levels = append(levels, level{apCtx[i].call.Block(), apCtx[:i]})
+	}
+	for _, lv := range levels {
+		for _, cd := range condsAt(lv.blk) {
+			cd = normCond(cd)
+			if isIndexLoopCond(cd.V) {
 				continue
 			}
-			if c, isC := ex.Tuple.(*ssa.Call); isC && cd.Val {
-				res := c.Call.Signature().Results()
-				if res.Len() == 3 && ex.Index == 2 {
-					verdict = ex
+			v, _ := resolveParam(cd.V, lv.ctx)
+			cd = normCond(Cond{v, cd.Val})
+			if _, isPhi := cd.V.(*ssa.Phi); isPhi && len(lv.ctx) < len(apCtx) {
+				// a loop-carried "more" flag of a cursor-driven loop (k, more := next(); more; k, more = next())
+				allStep := true
+				for _, src := range phiSources(cd.V.(*ssa.Phi)) {
+					ex, isEx := src.(*ssa.Extract)
+					if !isEx {
+						allStep = false
+						continue
+					}
+					c, isC := ex.Tuple.(*ssa.Call)
+					if !isC || c.Call.Signature().Results().Len() != 2 || ex.Index != 1 {
+						allStep = false
+					}
+				}
+				if allStep {
 					continue
 				}
-				if res.Len() == 2 && ex.Index == 1 {
-					continue // the position step succeeded (prepareSearch ok)
+			}
+			if ex, ok := cd.V.(*ssa.Extract); ok {
+				if _, isNext := ex.Tuple.(*ssa.Next); isNext {
+					continue
+				}
+				if c, isC := ex.Tuple.(*ssa.Call); isC && cd.Val {
+					res := c.Call.Signature().Results()
+					if res.Len() == 3 && ex.Index == 2 {
+						verdict = ex
+						continue
+					}
+					if res.Len() == 2 && ex.Index == 1 {
+						continue // the position step succeeded (prepareSearch ok, cursor.next more)
+					}
 				}
 			}
+			extra = cd.V.String()
 		}
-		extra = cd.V.String()
 	}
 	if verdict == nil || extra != "" {
 		e.fail("R2", construct, e.ipos(ap), "the append to the result is not governed exactly by the per-item verdict (verdict found:%v, extra condition:%q): items are emitted or dropped independently of the match", verdict != nil, extra)
@@ -338,6 +536,9 @@ func c02R2(e *Engine) {
 	}
 	// appended element is the item returned with that verdict
 	els := variadicElems(ap.Call.Args[1])
+	if len(els) == 1 {
+		els[0], _ = resolveParam(els[0], apCtx)
+	}
 	sameCall := len(els) == 1 && derivesFrom(els[0], verdict.(*ssa.Extract).Tuple)
 	e.check(sameCall, "R2", construct, e.ipos(ap), "the item appended is the one the verdict was computed for, and the append happens iff the verdict is true")
 	// inside the per-item decision: the emit flag depends on both the match verdict and the started flag
@@ -707,11 +908,13 @@ func c02R6(e *Engine) {
 	// same direction source for startSearch and GetKeyAt
 	d1 := strings.Join(e.origins(sc.Call.Args[1]), "|")
 	d2 := ""
-	instrs(sd, func(in ssa.Instruction) {
-		if c, ok := in.(*ssa.Call); ok && c.Call.StaticCallee() == gk {
-			d2 = strings.Join(e.origins(c.Call.Args[3]), "|")
-		}
-	})
+	for _, g := range sortedFns(e, e.reach(sd)) { // in the loop itself or in a cursor/step helper it calls
+		instrs(g, func(in ssa.Instruction) {
+			if c, ok := in.(*ssa.Call); ok && c.Call.StaticCallee() == gk {
+				d2 = strings.Join(e.origins(c.Call.Args[3]), "|")
+			}
+		})
+	}
 	same := d1 != "" && strings.Contains(d1, "QueryInput.ScanIndexForward") && strings.Contains(d2, "QueryInput.ScanIndexForward")
 	e.check(same, "R6", "core.Table.SearchData:one-direction-flag", e.ipos(sc), "entry-list order ← %s ; position arithmetic ← %s", d1, d2)
 }
@@ -728,6 +931,24 @@ func c02R8(e *Engine) {
 			step = in
 		}
 	})
+	if step == nil {
+		// cursor form: the step lives in the step function of a cursor object; the loop is the one in SearchData that the
+		// cursor drives (its calls inside a loop body)
+		instrs(sd, func(in ssa.Instruction) {
+			c, ok := in.(*ssa.Call)
+			if !ok {
+				return
+			}
+			if _, isStep := e.cursorStep(c.Call.StaticCallee()); !isStep {
+				return
+			}
+			for _, body := range naturalLoops(sd) {
+				if body[c.Block()] {
+					step = in
+				}
+			}
+		})
+	}
 	if step == nil {
 		e.undecided("R8", "core.Table.SearchData:visits-every-position", e.pos(sd.Pos()), "position step not found")
 		return
@@ -749,6 +970,28 @@ func c02R8(e *Engine) {
 				}
 			}
 			if c, isC := v.(*ssa.Call); isC {
+				if g := c.Call.StaticCallee(); g != nil && e.fnRole(g) == "core" && g.Blocks != nil && isBoolType(c.Type()) && len(returnsOf(g)) > 1 {
+					// a step helper that reports "the page is complete": every return is the constant false or is itself
+					// computed from the limit
+					all := true
+					for _, r := range returnsOf(g) {
+						rv := retVals(r)[0]
+						if b, isK := constBool(rv); isK && !b {
+							continue
+						}
+						saved := ok
+						ok = false
+						walk(rv, d+1)
+						if !ok {
+							all = false
+						}
+						ok = saved
+					}
+					if all {
+						ok = true
+					}
+					return
+				}
 				for _, a := range c.Call.Args {
 					walk(a, d+1)
 				}
